@@ -22,6 +22,38 @@ def apply(t, m):
     return t
 
 
+def upper_approx(t, tb, fuel=8):
+    """a type WITHOUT open variables that every instance of t (open variables ranging over
+    their own bounds) is a subtype of; None = no constraint.  Open variables are widened to
+    `? extends <their upper approximation>` at argument positions that are declared invariant
+    or covariant, to `*` at contravariant positions and under `in` projections."""
+    if t is None or fuel <= 0:
+        return None
+    k = t[0]
+    if k == 'V':
+        return upper_approx(t[3], tb, fuel - 1)
+    if not refrel.has_tvars(t):
+        return t
+    if k == 'P':
+        ci = tb.classes.get(t[1])
+        if ci is None or len(ci.params) != len(t[2]):
+            return None
+        args = []
+        for prm, a in zip(ci.params, t[2]):
+            if not refrel.has_tvars(a):
+                args.append(a)
+                continue
+            dv = prm[1]
+            if dv == 2 or (a[0] == 'W' and (a[2] is None or a[1] == 2)):
+                args.append(('W', 1, None))
+                continue
+            inner = a[2] if a[0] == 'W' else a
+            u = upper_approx(inner, tb, fuel - 1)
+            args.append(('W', 1, u) if u is not None else ('W', 1, None))
+        return ('P', t[1], tuple(args))
+    return None
+
+
 def match(p, t, tb, why):
     """does the instantiated pattern p describe the target t, up to open variables whose
     target component satisfies the variable's bound?  Returns True / False / None."""
@@ -36,7 +68,20 @@ def match(p, t, tb, why):
         if b is None:
             return True
         if refrel.has_tvars(b):
-            return None                   # bound still mentions open variables
+            # bound still mentions open variables: only its variable-free upper
+            # approximation can be judged (a necessary condition)
+            b = upper_approx(b, tb)
+            if b is None:
+                return None
+            x = refrel.upper(t) if t[0] == 'W' else t
+            if x is None:
+                return None
+            ok = refrel.sub3(x, b, tb)
+            if ok is False:
+                why.append('open variable %s: target component %s outside the upper '
+                           'approximation %s of its bound' % (p[1], tstr(t), tstr(b)))
+                return False
+            return None
         x = t
         if t[0] == 'W':
             if t[2] is None:
@@ -112,7 +157,7 @@ class C10(MonitorCheck):
                    'components for which the reference relation is undetermined are counted, not '
                    'judged']
     PROBES = ('nonempty_unifiers', 'empty_results', 'supertype_mode', 'projection_pattern',
-              'nested_related_constructor',
+              'nested_related_constructor', 'bound_mentions_bounded_variable',
               'bounded_variable', 'postrun_unifications')
     tiers = {'quick': {'runs': 260, 'wall_s': 70, 'run_timeout_s': 200},
              'thorough': {'runs': 4000, 'wall_s': 1100, 'run_timeout_s': 900}}
@@ -213,6 +258,30 @@ class C10(MonitorCheck):
                             nn += 1
                     except Exception:   # noqa
                         pass
+            # a pattern that is a bounded type variable whose bound mentions ANOTHER bounded
+            # variable: T <: G<U, g..>, U <: Number, against targets G<String, g..> (cannot
+            # satisfy the bound for any U) and G<Integer, g..> (can); both matching modes.
+            # The recorded calls are judged below by the upper-approximation rule.
+            nb = 0
+            num, good, badt = f.get_number_type(), f.get_integer_type(), f.get_string_type()
+            for d in list(decls.values())[:8]:
+                tps = d.type_parameters
+                if tps[0].bound is not None:
+                    continue
+                try:
+                    rest = [ground[(i + 1) % 3] for i in range(len(tps) - 1)]
+                    u = tp.TypeParameter('U_probe', bound=num)
+                    t_ = tp.TypeParameter('T_probe', bound=d.get_type().new([u] + rest))
+                    for x in (badt, good):
+                        target = d.get_type().new([x] + rest)
+                        for same in (False, True):
+                            tu.unify_types(target, t_, f, same_type=same)
+                            nb += 1
+                except Exception:   # noqa
+                    pass
+            npost += nb
+            if nb:
+                probes['bound_mentions_bounded_variable'] = nb
             npost += nn
             if nn:
                 probes['nested_related_constructor'] = nn
@@ -260,8 +329,23 @@ class C10(MonitorCheck):
                     b = apply(k[3], m)
                     while b is not None and b[0] == 'V':
                         b = b[3]
-                    if b is None or refrel.has_tvars(b):
-                        continue          # the bound is (or mentions) an open variable
+                    if b is None:
+                        continue
+                    if refrel.has_tvars(b):
+                        # the bound mentions open variables: judge the necessary condition
+                        # "within the variable-free upper approximation of the bound"
+                        ub = upper_approx(b, tb)
+                        xx = refrel.upper(x) if x[0] == 'W' else x
+                        if ub is not None and xx is not None and not refrel.has_tvars(xx):
+                            obl['assigned-within-bound-approx'] = obl.get(
+                                'assigned-within-bound-approx', 0) + 1
+                            if refrel.sub3(xx, ub, tb) is False:
+                                add('assigned-outside-bound', '%s|approx|%s-vs-%s' % (
+                                    'same' if same else 'super', shape(xx, 1), shape(ub, 1)),
+                                    '%s: %s := %s cannot satisfy the bound %s for any value of '
+                                    'its open variables (upper approximation %s)' % (
+                                        where, k[1], tstr(x), tstr(b), tstr(ub)))
+                        continue
                     xx = x
                     if x[0] == 'W':
                         if x[2] is None or x[1] != 1:
